@@ -516,6 +516,15 @@ func search(t *testing.T, p *Prop, job *Job, emit func(any), tick func()) {
 			}
 			emit(map[string]any{"type": "violation", "record": rec})
 		}
+		// A run that ended with tasks abandoned INSIDE the code under test (parked at a yield or waiting for a lock when
+		// the step budget ran out or a deadlock was declared) leaves goroutines behind that may hold process-wide locks
+		// of that code for ever; a later case of this process would then block on them and look deadlocked. The rest
+		// of the batch continues in a fresh process (tasks blocked in a real channel operation hold no locks).
+		if o.Res != nil && !job.Reverse && abandonedInside(o.Res) {
+			sum.NextRun = n + 1
+			sum.Probes["worker_restarts_after_abandoned_tasks"]++
+			break
+		}
 	}
 	for k := range inter {
 		sum.Interleave = append(sum.Interleave, fmt.Sprintf("%016x", k))
@@ -532,6 +541,15 @@ func search(t *testing.T, p *Prop, job *Job, emit func(any), tick func()) {
 	sum.WallS = time.Since(t0).Seconds()
 	sum.Completed = true
 	emit(sum)
+}
+
+func abandonedInside(res *verifsim.Result) bool {
+	for _, b := range res.Blocked {
+		if b.State == "parked" || b.State == "lockwait" || b.State == "condwait" {
+			return true
+		}
+	}
+	return false
 }
 
 func replay(t *testing.T, p *Prop, job *Job, emit func(any)) {
